@@ -77,11 +77,13 @@ EagerForms == {"split"}
 FormsQuick == {"seq", "source_calter", "seq_malter", "el_calter", "el_malter"}
 FormsAll == {"seq", "source", "seq_calter", "source_calter", "seq_malter", "source_malter", "el_calter", "el_malter",
              "split", "seq_nested_calter", "seq_nested_malter"}
+\* thorough: together with FormsQuick every form is explored exhaustively in one of the tiers
+FormsThorough == {"seq", "source", "seq_calter", "source_malter", "el_calter", "el_malter", "split", "seq_nested_calter"}
 
 MaxVer == Len(lens)
 F(v) == [i \in 1..lens[v] |-> 100 * v + i]
 LensQuick == {<<0, 2>>, <<1, 1>>, <<2, 2>>}
-LensThorough == {<<0, 2, 1>>, <<1, 0, 2>>, <<2, 2, 2>>, <<3, 3, 3>>}
+LensThorough == {<<0, 2, 1>>, <<1, 0, 2>>, <<3, 3, 3>>}
 Absent == [k |-> "A", c |-> <<>>]
 Refused == [k |-> "B", c |-> <<>>]
 Full(s) == [k |-> "F", c |-> s]
@@ -170,7 +172,10 @@ Interrupt ==
                                 ELSE IF file'[c] = Full(Cur) THEN CurVer ELSE 0]
   /\ intr' = [c \in 1..nc |-> IF Dumping(c) THEN TRUE ELSE intr[c]]
 
-RaiseAt(site) == /\ ph = "run" /\ ~Broken /\ pos < Len(Cur) /\ Active(site)
+\* (an element raises while it handles the next value of the feeding flow; inside a Split the source is read,
+\* and may raise, before anything is delivered - whatever the flow that feeds the run)
+RaiseAt(site) == /\ ph = "run" /\ ~Broken /\ Active(site)
+                 /\ (pos < Len(Cur) \/ (eager /\ site = "src" /\ lens[ver] > 0))
                  /\ Interrupt /\ h' = Log(h, Cmd("raise", site, rc, 0))
                  /\ EndRun /\ Scenario /\ UNCHANGED <<ver, rc>>
 Stop(kind) == /\ ph = "run" /\ Interrupt /\ h' = Log(h, Cmd("stop", kind, rc, 0))
